@@ -72,7 +72,8 @@ RoundTrip(t) == InDom(t) => FromStr(ToStr(t)) = t
 
 \* field contents with separators in every position; values are enumerated by index tuples
 FieldSeq == << <<>>, <<"a">>, <<"a", "b">>, <<":">>, <<"a", ":">>, <<"#", "a">>, <<"(", "a">>, <<"a", ")">>, <<"@">>, <<"a", "#", "b">>,
-              <<"a", ":", "/", "/", "b">>, <<"/", "a", ".", "b", "?", "c", "=", "d">> >>   \* URL-like contents
+              <<"a", ":", "/", "/", "b">>, <<"/", "a", ".", "b", "?", "c", "=", "d">>,   \* URL-like contents
+              <<".", ".", ".">> >>     \* the spelling other Zanzibar implementations give the "any relation" wildcard: an ordinary string here
 NF == Len(FieldSeq)
 NsSeq == << <<"a">>, <<":">> >>
 ObjSeq == << <<"a">>, <<"#", "a">> >>
